@@ -576,8 +576,16 @@ def exhaustive_programs(ctx, cfg, tag, rnd, keys, coverage=False, timeout=900):
         "distinct_states": r.distinct, "transitions": len(edges), "depth": r.depth,
         "tour_programs": len(progs), "tour_operations": sum(len(p["ops"]) for p in progs)}
     if coverage:
-        zero = [z for z in r.coverage_zero() if "RaftStore" in z]
-        ctx.cov["exhaustive"][cfg]["coverage_zero"] = zero
+        # "<Action line ..>: distinct:generated" lines of -coverage 1 (vacuity check)
+        acts = {}
+        for m in re.finditer(r"^<(\w+) line \d+, col \d+ to line \d+, col \d+ of module RaftStore>: (\d+):(\d+)$",
+                             r.out, re.M):
+            if m.group(1) not in ("Init", "EdgePrint"):
+                acts[m.group(1)] = int(m.group(3))
+        ctx.cov["exhaustive"][cfg]["transitions_by_action"] = acts
+        ctx.cov["exhaustive"][cfg]["actions_never_taken"] = sorted(a for a, g in acts.items() if g == 0)
+        if len(acts) < 10 or any(g == 0 for g in acts.values()):
+            raise vlib.Inconclusive("vacuity: actions never taken in %s: %s" % (cfg, acts))
     ctx.log("%s: %d states, %d transitions -> tour of %d programs / %d operations" % (
         cfg, r.distinct, len(edges), len(progs), sum(len(p["ops"]) for p in progs)))
     return progs
@@ -678,4 +686,8 @@ def _run(ctx, rig):
     if v.accepted_traces + sum(1 for f in findings if f[0] == "violation") < len(programs) and not findings:
         raise vlib.Inconclusive("only %d of %d executions were validated" % (v.accepted_traces, len(programs)))
 
-    selftest(ctx, rig)
+    if ctx.violations or ctx.known_hits:
+        # the self-test needs a trace of a property-abiding store
+        ctx.cov["binding_selftest"] = "skipped: the real store violates the property in this run"
+    else:
+        selftest(ctx, rig)
